@@ -9,6 +9,7 @@
     par <t0 ops> | <t1 ops> | …                         => <id>,<inv>,<ret>,<result> …
   op syntax (fields separated by ','; ops of one goroutine by ';'):
     reg,<name>,<face>,<origin>,<cost>,<flags>  unreg,<name>,<face>,<origin>  cleanup,<face>
+    fins,<name>,<face>,<cost>  frem,<name>,<face>   (direct FIB commands, on prefixes below /f only)
     sets,<name>,<strategy>  unsets,<name>  nh,<name>  st,<name>  lf  lr  ls
   id = 100*goroutine + position.  inv/ret are ticks of one global atomic counter.
 -/
@@ -28,6 +29,12 @@ def parseOp (s : String) : Option SOp :=
     let n ← Name.ofText n; let f ← f.toNat?; let o ← o.toNat?
     pure (.unreg n f o)
   | ["cleanup", f] => do let f ← f.toNat?; pure (.cleanup f)
+  | ["fins", n, f, c] => do
+    let n ← Name.ofText n; let f ← f.toNat?; let c ← c.toNat?
+    pure (.fins n f c)
+  | ["frem", n, f] => do
+    let n ← Name.ofText n; let f ← f.toNat?
+    pure (.frem n f)
   | ["sets", n, x] => do let n ← Name.ofText n; let x ← Name.ofText x; pure (.sets n x)
   | ["unsets", n] => do let n ← Name.ofText n; pure (.unsets n)
   | ["nh", n] => do let n ← Name.ofText n; pure (.nh n)
@@ -38,7 +45,7 @@ def parseOp (s : String) : Option SOp :=
   | _ => none
 
 def isWrite : SOp → Bool
-  | .reg .. | .unreg .. | .cleanup .. | .sets .. | .unsets .. => true
+  | .reg .. | .unreg .. | .cleanup .. | .sets .. | .unsets .. | .fins .. | .frem .. => true
   | _ => false
 
 def parseThreads (spec : String) : Option (List (Nat × SOp)) :=
